@@ -445,4 +445,384 @@ theorem asUnit_unitJson (u : TUnit) : asUnit (unitJson u) = some u := by
   | none => simp [asUnit, unitJson, lookupKey, idJson, h1, h2, h3, asStrList, allStrs_map]
   | some i => simp [asUnit, unitJson, lookupKey, idJson, h1, h2, h3, asStrList, allStrs_map]
 
+/-! ### The array of units -/
+
+/-- `,body(u1),body(u2)…` -/
+def commaUnits : List TUnit → List Char
+  | [] => []
+  | u :: us => ',' :: (unitBody u ++ commaUnits us)
+
+theorem unitsLoop_false_eq (us : List TUnit) : unitsLoop false us = commaUnits us := by
+  induction us with
+  | nil => rfl
+  | cons u us ih => simp [unitsLoop, commaUnits, ih]
+
+/-- fuel that certainly suffices for the rest of the array -/
+def totalNeed : List TUnit → Nat
+  | [] => 0
+  | u :: us => u.values.length + 7 + totalNeed us
+
+theorem parseArrRest_units (js : Bool) (us : List TUnit) (hn : ∀ u ∈ us, UnitNamesOk u) :
+    ∀ (f : Nat) (acc : List JVal) (rest : List Char), totalNeed us < f →
+    parseArrRest js f acc (commaUnits us ++ ']' :: rest)
+      = some (JVal.arr (acc.reverse ++ us.map unitJson), rest) := by
+  induction us with
+  | nil =>
+    intro f acc rest hf
+    obtain ⟨f', rfl⟩ : ∃ f', f = f' + 1 := ⟨f - 1, by omega⟩
+    rw [parseArrRest]
+    simp [commaUnits]
+  | cons u us ih =>
+    intro f acc rest hf
+    simp only [totalNeed] at hf
+    obtain ⟨f', rfl⟩ : ∃ f', f = f' + 1 := ⟨f - 1, by omega⟩
+    rw [parseArrRest]
+    simp only [commaUnits, List.cons_append, List.append_assoc, skipWs_comma]
+    rw [parseValue_unit js (hn u (by simp)) f' (by omega)]
+    simp only []
+    rw [ih (fun v hv => hn v (by simp [hv])) f' (unitJson u :: acc) rest (by omega)]
+    simp
+
+theorem unitBody_head (u : TUnit) : ∃ t, unitBody u = '{' :: '"' :: t := by
+  simp [unitBody, litLocale]
+
+theorem parseValue_units (js : Bool) (us : List TUnit) (hn : ∀ u ∈ us, UnitNamesOk u)
+    (f : Nat) (hf : totalNeed us < f) (rest : List Char) :
+    parseValue js (f + 1) ('[' :: (unitsLoop true us ++ ']' :: rest))
+      = some (JVal.arr (us.map unitJson), rest) := by
+  cases us with
+  | nil =>
+    rw [parseValue]
+    simp [unitsLoop]
+  | cons u us' =>
+    simp only [totalNeed] at hf
+    obtain ⟨t, ht⟩ := unitBody_head u
+    have h1 := parseValue_unit js (hn u (by simp)) f (by omega) (commaUnits us' ++ ']' :: rest)
+    have h2 := parseArrRest_units js us' (fun v hv => hn v (by simp [hv])) f [unitJson u] rest (by omega)
+    rw [parseValue]
+    simp only [unitsLoop, unitsLoop_false_eq, List.nil_append, List.append_assoc, skipWs_lbrack, if_true]
+    rw [ht] at h1 ⊢
+    simp only [List.cons_append, skipWs_lbrace] at h1 ⊢
+    simp only [h1, h2]
+    simp
+
+theorem allUnits_map (us : List TUnit) : allUnits (us.map unitJson) = some us := by
+  induction us with
+  | nil => rfl
+  | cons u us ih => simp [allUnits, asUnit_unitJson, ih]
+
+theorem stripPrefix_append (p s : List Char) : stripPrefix p (p ++ s) = some s := by
+  induction p with
+  | nil => cases s <;> rfl
+  | cons c cs ih => simp [stripPrefix, ih]
+
+theorem length_valuesLoop (b : Bool) (vs : List (List Char)) : vs.length ≤ (valuesLoop b vs).length := by
+  induction vs generalizing b with
+  | nil => simp [valuesLoop]
+  | cons v vs ih =>
+    have := ih false
+    simp [valuesLoop, jsQuote]; omega
+
+theorem length_unitBody (u : TUnit) : u.values.length + 7 ≤ (unitBody u).length := by
+  have := length_valuesLoop true u.values
+  cases hi : u.id <;> simp [unitBody, hi, litLocale, litId, litValues, litIdNull, litClose] <;> omega
+
+theorem length_unitsLoop (b : Bool) (us : List TUnit) : totalNeed us ≤ (unitsLoop b us).length := by
+  induction us generalizing b with
+  | nil => simp [totalNeed]
+  | cons u us ih =>
+    have := ih false
+    have := length_unitBody u
+    simp [unitsLoop, totalNeed]; omega
+
+theorem globalName_eq : globalName = globalRef := by decide
+
+theorem jsDecode_toArray (us : List TUnit) (hn : ∀ u ∈ us, UnitNamesOk u) :
+    jsDecodeEmbedded (toArray us) = some us := by
+  have hlen : totalNeed us < (toArray us).length := by
+    have := length_unitsLoop true us
+    simp [toArray, arrayPrefix]; omega
+  have h := parseValue_units true us hn (toArray us).length hlen [';']
+  unfold jsDecodeEmbedded
+  have hs : toArray us = globalRef ++ (' ' :: '=' :: ' ' :: '[' :: (unitsLoop true us ++ [']', ';'])) := by
+    simp [toArray, arrayPrefix, globalName_eq, litEnd]
+  rw [hs, stripPrefix_append]
+  simp only [skipWs_space, skipWs_eq]
+  rw [← hs, parseValue, skipWs_space]
+  rw [parseValue] at h
+  have h' : [']', ';'] = ']' :: [';'] := rfl
+  rw [h', h]
+  simp [asUnitList, allUnits_map]
+
+/-! ### No `<` in the output -/
+
+theorem hexDigit_ne_lt (n : Nat) : hexDigit n ≠ '<' := by
+  unfold hexDigit
+  split <;> decide
+
+theorem lt_not_mem_jsEscChar (c : Char) : '<' ∉ jsEscChar c := by
+  unfold jsEscChar
+  by_cases h : c = '"'
+  · rw [if_pos h]; decide
+  rw [if_neg h]
+  by_cases h : c = '\\'
+  · rw [if_pos h]; decide
+  rw [if_neg h]
+  by_cases h : c = '\n'
+  · rw [if_pos h]; decide
+  rw [if_neg h]
+  by_cases h : c = '\r'
+  · rw [if_pos h]; decide
+  rw [if_neg h]
+  by_cases h : c = '\t'
+  · rw [if_pos h]; decide
+  rw [if_neg h]
+  by_cases h : c = '\x08'
+  · rw [if_pos h]; decide
+  rw [if_neg h]
+  by_cases h : c = '\x0c'
+  · rw [if_pos h]; decide
+  rw [if_neg h]
+  by_cases hlt : c = '<'
+  · rw [if_pos hlt]; decide
+  rw [if_neg hlt]
+  by_cases h : c = '\u2028'
+  · rw [if_pos h]; decide
+  rw [if_neg h]
+  by_cases h : c = '\u2029'
+  · rw [if_pos h]; decide
+  rw [if_neg h]
+  by_cases h : c.toNat < 0x20
+  · rw [if_pos h]
+    simp only [hex4, List.mem_cons, List.not_mem_nil, or_false, not_or]
+    exact ⟨by decide, by decide, (hexDigit_ne_lt _).symm, (hexDigit_ne_lt _).symm, (hexDigit_ne_lt _).symm,
+      (hexDigit_ne_lt _).symm⟩
+  rw [if_neg h]
+  simp only [List.mem_cons, List.not_mem_nil, or_false]
+  exact fun e => hlt e.symm
+
+theorem lt_not_mem_escBody (s : List Char) : '<' ∉ escBody jsEscChar s := by
+  induction s with
+  | nil => simp [escBody]
+  | cons c cs ih => simp [escBody, lt_not_mem_jsEscChar c, ih]
+
+theorem lt_not_mem_jsQuote (s : List Char) : '<' ∉ jsQuote s := by
+  simp [jsQuote, lt_not_mem_escBody]
+
+theorem lt_not_mem_valuesLoop (b : Bool) (vs : List (List Char)) : '<' ∉ valuesLoop b vs := by
+  induction vs generalizing b with
+  | nil => simp [valuesLoop]
+  | cons v vs ih => cases b <;> simp [valuesLoop, lt_not_mem_jsQuote, ih]
+
+theorem lt_not_mem_name {n : List Char} (h : NameOk n) : '<' ∉ n := by
+  intro hm
+  have := h _ hm
+  revert this
+  decide
+
+theorem lt_not_mem_unitBody {u : TUnit} (hu : UnitNamesOk u) : '<' ∉ unitBody u := by
+  obtain ⟨l, i, vs⟩ := u
+  obtain ⟨hl, hi⟩ := hu
+  have h1 := lt_not_mem_name hl
+  have h2 := lt_not_mem_valuesLoop true vs
+  cases i with
+  | none => simp [unitBody, litLocale, litIdNull, litClose] at h1 ⊢; exact ⟨h1, h2⟩
+  | some i =>
+    have h3 := lt_not_mem_name (hi i rfl)
+    simp [unitBody, litLocale, litId, litValues, litClose] at h1 ⊢; exact ⟨h1, h3, h2⟩
+
+theorem lt_not_mem_unitsLoop (b : Bool) (us : List TUnit) (hn : ∀ u ∈ us, UnitNamesOk u) :
+    '<' ∉ unitsLoop b us := by
+  induction us generalizing b with
+  | nil => simp [unitsLoop]
+  | cons u us ih =>
+    have h1 := lt_not_mem_unitBody (hn u (by simp))
+    have h2 := ih false (fun v hv => hn v (by simp [hv]))
+    cases b <;> simp [unitsLoop, h1, h2]
+
+theorem lt_not_mem_toArray (us : List TUnit) (hn : ∀ u ∈ us, UnitNamesOk u) : '<' ∉ toArray us := by
+  have := lt_not_mem_unitsLoop true us hn
+  simp [toArray, arrayPrefix, globalName, litEnd, this]
+
+theorem eqCI_lt {c : Char} (h : c ≠ '<') : eqCI '<' c = false := by
+  have h60 : ('<' : Char).toNat = 60 := by decide
+  simp only [eqCI, h60, Bool.or_eq_false_iff, Bool.and_eq_false_iff, decide_eq_false_iff_not]
+  refine ⟨h, ?_⟩
+  by_cases h1 : 65 ≤ c.toNat
+  · right; omega
+  · left; left; exact h1
+
+theorem hasInfixCI_lt (ps s : List Char) (h : '<' ∉ s) : hasInfixCI ('<' :: ps) s = false := by
+  induction s with
+  | nil => simp [hasInfixCI]
+  | cons c cs ih =>
+    have hc : c ≠ '<' := fun e => h (by simp [e])
+    simp [hasInfixCI, startsWithCI, eqCI_lt hc, ih (fun hm => h (by simp [hm]))]
+
+theorem scriptSafe_of_no_lt (s : List Char) (h : '<' ∉ s) : scriptSafe s = true := by
+  simp [scriptSafe, patEndScript, patComment, hasInfixCI_lt _ s h]
+
+/-! ### The registration map -/
+
+theorem sameKey_iff (a b : TUnit) : a.sameKey b = true ↔ a.locale = b.locale ∧ a.id = b.id := by
+  simp [TUnit.sameKey]
+
+theorem sameKey_refl (a : TUnit) : a.sameKey a = true := by simp [sameKey_iff]
+
+theorem sameKey_symm {a b : TUnit} (h : a.sameKey b = true) : b.sameKey a = true := by
+  rw [sameKey_iff] at h ⊢; exact ⟨h.1.symm, h.2.symm⟩
+
+theorem sameKey_trans {a b c : TUnit} (h1 : a.sameKey b = true) (h2 : b.sameKey c = true) : a.sameKey c = true := by
+  rw [sameKey_iff] at h1 h2 ⊢; exact ⟨h1.1.trans h2.1, h1.2.trans h2.2⟩
+
+/-- no two entries with the same key (what a `HashMap` guarantees) -/
+def DistinctKeys (m : List TUnit) : Prop := m.Pairwise (fun a b => a.sameKey b = false)
+
+theorem keysDistinct_iff (m : List TUnit) : keysDistinct m = true ↔ DistinctKeys m := by
+  induction m with
+  | nil => simp [keysDistinct, DistinctKeys]
+  | cons u us ih =>
+    simp only [keysDistinct, DistinctKeys, List.pairwise_cons, Bool.and_eq_true, Bool.not_eq_true',
+      List.any_eq_false]
+    rw [ih]
+    constructor
+    · rintro ⟨h1, h2⟩
+      refine ⟨fun v hv => ?_, h2⟩
+      have := h1 v hv
+      cases h : u.sameKey v with
+      | false => rfl
+      | true => exact absurd (sameKey_symm h) (by simp [this])
+    · rintro ⟨h1, h2⟩
+      refine ⟨fun v hv => ?_, h2⟩
+      have := h1 v hv
+      cases h : v.sameKey u with
+      | false => simp
+      | true => exact absurd (sameKey_symm h) (by simp [this])
+
+theorem mem_mapInsert_self (u : TUnit) (m : List TUnit) : u ∈ mapInsert u m := by
+  induction m with
+  | nil => simp [mapInsert]
+  | cons v m ih =>
+    simp only [mapInsert]
+    split <;> simp [ih]
+
+theorem mem_mapInsert_weak {u x : TUnit} {m : List TUnit} (h : x ∈ mapInsert u m) : x = u ∨ x ∈ m := by
+  induction m with
+  | nil => simpa [mapInsert] using h
+  | cons w m ih =>
+    simp only [mapInsert] at h
+    split at h
+    · simp only [List.mem_cons] at h ⊢
+      rcases h with h | h
+      · exact Or.inl h
+      · exact Or.inr (Or.inr h)
+    · simp only [List.mem_cons] at h ⊢
+      rcases h with h | h
+      · exact Or.inr (Or.inl h)
+      · rcases ih h with h' | h'
+        · exact Or.inl h'
+        · exact Or.inr (Or.inr h')
+
+theorem sameKey_false_of {w u x : TUnit} (h1 : w.sameKey u = true) (h2 : w.sameKey x = false) :
+    x.sameKey u = false := by
+  cases h : x.sameKey u with
+  | false => rfl
+  | true =>
+    have := sameKey_trans h1 (sameKey_symm h)
+    rw [h2] at this; exact absurd this (by decide)
+
+theorem mem_mapInsert {u v : TUnit} {m : List TUnit} (hd : DistinctKeys m) :
+    v ∈ mapInsert u m ↔ v = u ∨ (v ∈ m ∧ v.sameKey u = false) := by
+  induction m with
+  | nil => simp [mapInsert]
+  | cons w m ih =>
+    simp only [DistinctKeys, List.pairwise_cons] at hd
+    obtain ⟨hw, hm⟩ := hd
+    simp only [mapInsert]
+    by_cases hwu : w.sameKey u = true
+    · rw [if_pos hwu]
+      simp only [List.mem_cons]
+      constructor
+      · rintro (h | h)
+        · exact Or.inl h
+        · exact Or.inr ⟨Or.inr h, sameKey_false_of hwu (hw v h)⟩
+      · rintro (h | ⟨h | h, hs⟩)
+        · exact Or.inl h
+        · subst h; rw [hwu] at hs; exact absurd hs (by decide)
+        · exact Or.inr h
+    · rw [if_neg hwu]
+      have hwu' : w.sameKey u = false := by simpa using hwu
+      simp only [List.mem_cons, ih hm]
+      constructor
+      · rintro (h | h | ⟨h, hs⟩)
+        · subst h; exact Or.inr ⟨Or.inl rfl, hwu'⟩
+        · exact Or.inl h
+        · exact Or.inr ⟨Or.inr h, hs⟩
+      · rintro (h | ⟨h | h, hs⟩)
+        · exact Or.inr (Or.inl h)
+        · exact Or.inl h
+        · exact Or.inr (Or.inr ⟨h, hs⟩)
+
+theorem distinctKeys_mapInsert {u : TUnit} {m : List TUnit} (hd : DistinctKeys m) :
+    DistinctKeys (mapInsert u m) := by
+  induction m with
+  | nil => simp [mapInsert, DistinctKeys]
+  | cons w m ih =>
+    simp only [DistinctKeys, List.pairwise_cons] at hd
+    obtain ⟨hw, hm⟩ := hd
+    simp only [mapInsert]
+    by_cases hwu : w.sameKey u = true
+    · rw [if_pos hwu]
+      simp only [DistinctKeys, List.pairwise_cons]
+      refine ⟨fun x hx => ?_, hm⟩
+      cases h : u.sameKey x with
+      | false => rfl
+      | true =>
+        have := sameKey_trans hwu h
+        rw [hw x hx] at this; exact absurd this (by decide)
+    · rw [if_neg hwu]
+      have hwu' : w.sameKey u = false := by simpa using hwu
+      simp only [DistinctKeys, List.pairwise_cons]
+      refine ⟨fun x hx => ?_, ih hm⟩
+      rcases mem_mapInsert_weak hx with h | h
+      · subst h; exact hwu'
+      · exact hw x h
+
+/-- every unit type has one constant table: two registrations with the same key carry the same strings -/
+def Consistent (hist : List TUnit) : Prop := ∀ a ∈ hist, ∀ b ∈ hist, a.sameKey b = true → a = b
+
+theorem foldl_mapInsert (hist : List TUnit) : ∀ (m seen : List TUnit), DistinctKeys m →
+    (∀ v, v ∈ m ↔ v ∈ seen) → Consistent (seen ++ hist) →
+    DistinctKeys (hist.foldl (fun m u => mapInsert u m) m) ∧
+      ∀ v, v ∈ hist.foldl (fun m u => mapInsert u m) m ↔ v ∈ seen ++ hist := by
+  induction hist with
+  | nil => intro m seen hd hm _; simpa using ⟨hd, hm⟩
+  | cons u hs ih =>
+    intro m seen hd hm hc
+    simp only [List.foldl_cons]
+    have hc' : Consistent ((seen ++ [u]) ++ hs) := by simpa using hc
+    have := ih (mapInsert u m) (seen ++ [u]) (distinctKeys_mapInsert hd) ?_ hc'
+    · simpa using this
+    · intro v
+      rw [mem_mapInsert hd, hm]
+      simp only [List.mem_append, List.mem_singleton]
+      constructor
+      · rintro (h | ⟨h, _⟩)
+        · exact Or.inr h
+        · exact Or.inl h
+      · rintro (h | h)
+        · by_cases hs' : v.sameKey u = true
+          · exact Or.inl (hc v (by simp [h]) u (by simp) hs')
+          · exact Or.inr ⟨h, by simpa using hs'⟩
+        · exact Or.inl h
+
+theorem registered_spec (hist : List TUnit) (hc : Consistent hist) :
+    DistinctKeys (registered hist) ∧ ∀ v, v ∈ registered hist ↔ v ∈ hist := by
+  have := foldl_mapInsert hist [] [] (by simp [DistinctKeys]) (by simp) (by simpa using hc)
+  simpa [registered] using this
+
+theorem subsetOf_iff (a b : List TUnit) : subsetOf a b = true ↔ ∀ u ∈ a, u ∈ b := by
+  simp [subsetOf]
+
+
 end I18nVerif.Escape
